@@ -187,7 +187,7 @@ func genYen(g *vlib.G) {
 		})
 	}
 	// (b) 4-node digraphs over {absent,1,2}: every graph (thorough) or the
-	// graphs whose index is congruent to 5 modulo 20 (quick), in blocks of 81.
+	// graphs whose index is congruent to 5 modulo 25 (quick), in blocks of 81.
 	{
 		ps := pairs(4, true)
 		radix, tail := 3, 4
@@ -199,7 +199,7 @@ func genYen(g *vlib.G) {
 				copy(digits, h)
 				odometer(tail, radix, func(tidx int, tl []int) bool {
 					gi := bidx*81 + tidx
-					if !thorough && gi%20 != 5 {
+					if !thorough && gi%25 != 5 {
 						return true
 					}
 					copy(digits[head:], tl)
